@@ -67,6 +67,11 @@ func ufAxioms(tb *TB, name string, apps []*Term) []string {
 				out = append(out, fmt.Sprintf("(=> (not (fp.isNaN %s)) (and (not (fp.isNaN %s)) (fp.geq %s (_ +zero 11 53)) (not (fp.isNegative %s))))", x, e, e, e))
 				out = append(out, fmt.Sprintf("(=> (fp.leq %s (_ +zero 11 53)) (fp.leq %s %s))", x, e, smtFP(1)))
 				out = append(out, fmt.Sprintf("(=> (fp.geq %s (_ +zero 11 53)) (fp.geq %s %s))", x, e, smtFP(1)))
+				// overflow / underflow thresholds of math.Exp (exp(709.78...) is the largest finite value, exp(-745.13...) the smallest non-zero)
+				out = append(out, fmt.Sprintf("(=> (fp.isInfinite %s) (fp.gt %s %s))", e, x, smtFP(709)))
+				out = append(out, fmt.Sprintf("(=> (fp.gt %s %s) (fp.isInfinite %s))", x, smtFP(710), e))
+				out = append(out, fmt.Sprintf("(=> (fp.isZero %s) (fp.lt %s %s))", e, x, smtFP(-745)))
+				out = append(out, fmt.Sprintf("(=> (fp.lt %s %s) (fp.isZero %s))", x, smtFP(-746), e))
 			case "tanh":
 				out = append(out, fmt.Sprintf("(=> (not (fp.isNaN %s)) (and (fp.geq %s %s) (fp.leq %s %s)))", x, e, smtFP(-1), e, smtFP(1)))
 			case "sin", "cos":
@@ -100,6 +105,14 @@ func ufAxioms(tb *TB, name string, apps []*Term) []string {
 			out = append(out, fmt.Sprintf("(and (>= %s (- 1.0)) (<= %s 1.0))", e, e))
 		case "log":
 			out = append(out, fmt.Sprintf("(= (<= %s 1.0) (<= %s 0.0))", x, e))
+		}
+	}
+	if name == "exp" {
+		// exp(x) * exp(-x) = 1
+		for i := 0; i < len(apps); i++ {
+			for j := i + 1; j < len(apps); j++ {
+				out = append(out, fmt.Sprintf("(=> (= (+ %s %s) 0.0) (= (* %s %s) 1.0))", p(apps[i].args[0]), p(apps[j].args[0]), p(apps[i]), p(apps[j])))
+			}
 		}
 	}
 	if name == "exp" || name == "tanh" || name == "log" {
